@@ -29,6 +29,7 @@ type Config struct {
 	EnvFires   int  // max environment (ticker/timer) firings per path
 	NPBound    int  // max free scheduling choices at blocking points per path (0 = unbounded)
 	Race       bool // happens-before race monitor
+	EnvBoundOK bool // a path on which everybody waits for a timer after the firing budget is spent is truncated (counted as "envbound"), not reported as a deadlock
 	EnvLazy    bool // tickers/timers fire only when every goroutine is blocked (no "fires now" choice)
 	Solver     string
 	TimeoutMS  int
